@@ -74,6 +74,7 @@ Verdict ==
     ELSE IF R.has_decoder /\ (R.dec_h # C.h \/ R.dec_w # C.w) THEN "url:decoded-dimensions-differ"
     ELSE IF R.has_decoder /\ ~DecodedSame THEN "url:decode-of-encode-differs-from-the-problem"
     ELSE IF R.legacy_applicable /\ ~R.legacy_same THEN "url:legacy-helper-and-combinator-texts-differ"
+    ELSE IF ~R.host_ok THEN "url:the-same-codec-under-another-pzpr-host-prefix-" \o R.host_why
     ELSE "ok"
 
 Report == t = 0 \/ PrintT(ToJson([t |-> R.t, verdict |-> Verdict]))
